@@ -18,8 +18,8 @@ func init() {
 		Explanation: "Verdict equality itself is not decidable statically. Decided: a sibling agreement that is necessary for it. (parity) For every match field of proto.Rule (universe computed from the generated struct, shared with C08/C11/C30) each of the four evaluators either reads the field in the closure of its per-rule entry point, or appears in a frozen, reasoned table of fields that evaluator cannot observe or explicitly rejects; a field that one evaluator consumes and a sibling silently ignores makes them disagree on every rule using it. " +
 			"(actions) Every evaluator maps the whole action universe (the case constants of the iptables renderer's action switch: allow, deny, pass, next-tier, log) — none falls into an unknown-action default. (staged) Every evaluator that turns policy IDs into enforcement skips staged policy kinds. " +
 			"(memo) Every memoising getter of an evaluator package (per-flow string forms in the application-layer checker, the policy-group UID of the iptables renderer) tests, fills and returns one and the same cache slot, so the value an evaluator matches on does not depend on which sibling getter ran earlier in the evaluation. " +
-			"(split) The BPF evaluator keeps matching the packet's own fields when a policy program is split mid-rule: C11's split discipline (index stash/restore/dispatch, callers reload live registers) armed under this id.",
-		NotDecided: "That two evaluators give a consumed field the same meaning (polarity/direction are decided per evaluator by C08, C11, C30); evaluation order; the kernel.",
+			"(tierlocal) The iptables/nftables evaluator renders each tier (end-of-tier deny, policy jumps) from that tier alone, like the BPF evaluator and the checker: C09's tier-locality armed under this id. (split) The BPF evaluator keeps matching the packet's own fields when a policy program is split mid-rule: C11's split discipline (index stash/restore/dispatch, callers reload live registers) armed under this id.",
+		NotDecided: "bitmap: the bit position inside a word (x % 64 against the word width) and the trie above the bitmap; counter loops whose bounds are not constants. That two evaluators give a consumed field the same meaning (polarity/direction are decided per evaluator by C08, C11, C30); evaluation order; the kernel.",
 		Assumptions: []string{
 			"go/types + go/ssa model; interface calls resolved by CHA within the loaded roots",
 			"a field counts as consumed when it is read (field access or generated getter) in the closure of the evaluator's per-rule entry point",
@@ -41,6 +41,16 @@ func init() {
 			{Name: "BPF ports loop keeps R1 across a program split without reloading", File: c11File,
 				Old: "\t\tif p.maybeSplitProgram() {\n\t\t\t// Program was split so the next instruction goes in the new program.\n\t\t\t// Need to reload our register(s).\n\t\t\tp.b.Load16(asm.R1, asm.R9, leg.offsetToStatePortField())\n\t\t}\n",
 				New: "\t\tp.maybeSplitProgram()\n", Expect: "C12.split/caller/Builder.writePortsMatch"},
+			{Name: "checker IP set: emptiness scan of the /24 bitmap stops one word early (a node whose remaining members have last octet >= 192 is pruned)", File: "app-policy/policystore/ipset.go",
+				Old: "\tfor i := range BitmapSize {\n", New: "\tfor i := 0; i < BitmapSize-1; i++ {\n", Expect: "C12.bitmap/networkBitmap.isEmpty/scan"},
+			{Name: "checker IP set: lookup addresses a different bitmap word than insertion", File: "app-policy/policystore/ipset.go",
+				Old: "func (bm *networkBitmap) contains(index byte) bool {\n\tii := index / 64\n", New: "func (bm *networkBitmap) contains(index byte) bool {\n\tii := index / 128\n", Expect: "C12.bitmap/networkBitmap.contains/word"},
+			{Name: "iptables renderer: per-tier end-of-tier-drop flag hoisted out of the tier loop and never reset (a staged-only tier after an enforced one drops; BPF and the checker pass)", File: "felix/rules/endpoints.go",
+				Old: c09FxTierHead + c09FxTierMid + "\t\t\tendOfTierDrop := false\n",
+				New: "\tvar (\n\t\tpolicyGroups  []*PolicyGroup\n\t\tendOfTierDrop bool\n\t)\n\tfor _, tier := range tiers {\n" + c09FxTierSel + c09FxTierMid, Expect: "C12.tierlocal/end-of-tier-deny"},
+			{Name: "iptables renderer: groups of the previous tier rendered again when this tier has none for the direction", File: "felix/rules/endpoints.go",
+				Old: c09FxTierHead,
+				New: "\tvar policyGroups []*PolicyGroup\n\tfor _, tier := range tiers {\n\t\tif policyType == ingressPolicy {\n\t\t\tpolicyGroups = tier.IngressPolicies\n\t\t} else if len(tier.EgressPolicies) > 0 {\n\t\t\tpolicyGroups = tier.EgressPolicies\n\t\t}\n", Expect: "C12.tierlocal/policy-jump"},
 			{Name: "BPF program split inside the CIDR section loop loses R2", File: c11File,
 				Old: "\t\t\tlastAddr = addr\n", New: "\t\t\tlastAddr = addr\n\t\t\tp.maybeSplitProgram()\n", Expect: "C12.split/caller/Builder.writeCIDRSMatch"},
 		},
@@ -124,6 +134,27 @@ func runC12(c *Ctx) {
 	p11 := c.Load(c11PolPkg, c11AsmPkg, c11StatePkg, c11RulesPkg)
 	m11 := c11BuildModel(c, p11)
 	c.Alias("C11.split", "C12.split", func() { c11Split(c, m11) })
+	// The BPF evaluator and the application-layer checker decide the end of a tier from
+	// that tier's own policies (a tier holding only staged policies falls through to the
+	// next tier).  The iptables/nftables evaluator agrees only if what it renders for a
+	// tier is a function of that tier alone: C09's tier-locality armed under this id.
+	c.Rule("C12.tierlocal", "E-FLOW", "the iptables/nftables evaluator renders a tier's end-of-tier deny and policy jumps from that tier alone, as the BPF evaluator and the checker do: no loop-carried dependence of their conditions on an earlier tier (c09TierLocal)", 2)
+	p9 := c.Load(c08RulesPkg, c08IptPkg, c08NftPkg, c08GtPkg)
+	m9 := &c09Model{c: c, p: p9}
+	m9.ev = &c08Eval{
+		terminal: func(q string) bool { return q == c08RulesPkg+".Config" },
+		bodyOK:   func(f *ssa.Function) bool { return false },
+		stopCall: func(call *ssa.Call) bool {
+			f := calleeOf(call.Common())
+			return f != nil && (isFunc(f, c08RulesPkg, "PolicyChainName") || isFunc(f, c08RulesPkg, "PolicyGroup.ChainName") || isFunc(f, c08RulesPkg, "ProfileChainName"))
+		},
+	}
+	ep9 := p9.Func(c08RulesPkg, "DefaultRuleRenderer.endpointIptablesChain")
+	if ep9 == nil {
+		c.Lost("DefaultRuleRenderer.endpointIptablesChain")
+	}
+	c.Alias("C09.tierlocal", "C12.tierlocal", func() { c09TierLocal(m9, ep9) })
+	c12Bitmap(c)
 }
 
 // c12Actions: the action universe is the set of string constants the iptables renderer's
